@@ -41,6 +41,8 @@ func checkC07(c *Ctx, r *Report) {
 	numFmtWriterRule(c, r, "C07.NUMFMT")
 	sepRule(c, r, "C07.SEP", false)
 	c07Line(c, r)
+	c07SubNil(c, r, a)
+	c07FreshErr(c, r, a)
 }
 
 func constStr(v ssa.Value) (string, bool) {
